@@ -103,6 +103,32 @@ def nearestEven (y : Rat) : Int :=
 significant digit is even" -/
 def roundHalfEven (x : Rat) (p : Int) : Rat := (nearestEven (x * pow10 p) : Int) / pow10 p
 
+/-! ### xs:decimal precision.  F&O 4.2: "the number of digits of precision returned by the numeric
+operators is implementation-defined … the result is truncated or rounded in an implementation-defined
+manner".  The implementation-defined choice of this library is Python's `decimal` default context:
+28 significant digits, ROUND_HALF_EVEN (IEEE 754-2008 decimal arithmetic), made explicit here. -/
+
+/-- number of decimal digits of `n` (1 for 0) -/
+def numDigits10 (n : Nat) : Nat := (Nat.toDigits 10 n).length
+
+/-- ⌊log10 a⌋ for a positive rational -/
+def ilog10 (a : Rat) : Int :=
+  let e : Int := (numDigits10 a.num.natAbs : Int) - (numDigits10 a.den : Int)
+  if (10 : Rat) ^ e ≤ a then (if (10 : Rat) ^ (e + 1) ≤ a then e + 1 else e) else e - 1
+
+/-- `q` rounded to 28 significant digits, ties to even -/
+def round28 (q : Rat) : Rat :=
+  if q = 0 then 0 else
+  let m := if q < 0 then -q else q
+  let k : Int := 27 - ilog10 m
+  (nearestEven (q * pow10 k) : Int) / pow10 k
+
+/-- the decimal context applied to an xs:decimal result -/
+def ctxDec : XVal → XVal
+  | .decimal q => .decimal (round28 q)
+  | v => v
+
+
 /-! ### IEEE 754 special-value tables (F&O 4.2: "for xs:float or xs:double values … as in IEEE 754") -/
 
 def Dbl.isNeg : Dbl → Bool
@@ -113,6 +139,13 @@ def Dbl.neg : Dbl → Dbl
 
 def Dbl.abs : Dbl → Dbl
   | .nan => .nan | .inf _ => .inf false | .zero _ => .zero false | .fin q => .fin (if q < 0 then -q else q)
+
+/-- what the theorems about mixed operands need from IEEE rounding: a non-zero exact value never
+rounds to NaN, keeps its sign, a finite result is written well-formed (`fin y`, `y ≠ 0`), and a
+non-zero integer never rounds to zero.  True of round-to-nearest in binary64. -/
+structure Faithful (R : Rounding) : Prop where
+  sign : ∀ q : Rat, q ≠ 0 → R.r64 q ≠ .nan ∧ (R.r64 q).isNeg = decide (q < 0) ∧ (R.r64 q).wf
+  intNonzero : ∀ n : Int, n ≠ 0 → ∀ s, R.r64 n ≠ .zero s
 
 /-- round an exact result: an exact zero is +0 (round-to-nearest mode, IEEE 754 §6.3) -/
 def rnd (r : Rat → Dbl) (q : Rat) : Dbl := if q = 0 then .zero false else r q
@@ -257,6 +290,71 @@ def specUn (R : Rounding) (op : UnOp) (a : XVal) : XVal :=
   | .decimal q => .decimal (exactUn op q)
   | .float d => .float (floatUn R.r32 op d)
   | .double d => .double (floatUn R.r64 op d)
+
+/-! ### XPath 1.0 (Recommendation 1999, §3.5 Numbers, §4.4 number()): there is one numeric type, the
+IEEE 754 double; a string operand is converted with number(): "a string that consists of optional
+whitespace followed by an optional minus sign followed by a Number followed by whitespace is converted
+to the IEEE 754 number that is nearest … any other string is converted to NaN", where
+Number ::= Digits ('.' Digits?)? | '.' Digits (no exponent, no '+', no INF). -/
+
+def isXmlSpace (c : Char) : Bool := c == ' ' || c == '\t' || c == '\n' || c == '\r'
+
+def stripWith (p : Char → Bool) (cs : List Char) : List Char :=
+  ((cs.dropWhile p).reverse.dropWhile p).reverse
+
+def digitsVal (ds : List Char) : Nat := ds.foldl (fun acc c => acc * 10 + (c.toNat - '0'.toNat)) 0
+
+/-- value of the decimal numeral `int.frac × 10^exp` -/
+def decimalToRat (int frac : List Char) (exp : Int) : Rat :=
+  ((digitsVal (int ++ frac) : Nat) : Rat) * pow10 (exp - frac.length)
+
+/-- `Digits ('.' Digits?)? | '.' Digits` at the head of `cs`: integer digits, fraction digits, rest -/
+def scanMantissa (cs : List Char) : Option (List Char × List Char × List Char) :=
+  let (i, r) := cs.span Char.isDigit
+  match r with
+  | '.' :: r' =>
+    let (f, r'') := r'.span Char.isDigit
+    if i.isEmpty && f.isEmpty then none else some (i, f, r'')
+  | _ => if i.isEmpty then none else some (i, [], r)
+
+/-- a signed exact decimal value as a double: nearest double, a zero keeps the sign -/
+def signedToDbl (r : Rat → Dbl) (neg : Bool) (q : Rat) : Dbl :=
+  if q = 0 then .zero neg else r (if neg then -q else q)
+
+/-- XPath 1.0 number() on a string -/
+def number10 (R : Rounding) (cs : List Char) : Dbl :=
+  let s := stripWith isXmlSpace cs
+  let (neg, body) := match s with
+    | '-' :: t => (true, t)
+    | t => (false, t)
+  match scanMantissa body with
+  | some (i, f, []) => signedToDbl R.r64 neg (decimalToRat i f 0)
+  | _ => .nan
+
+/-- an XPath 1.0 operand: a number (however the implementation represents it) or a string -/
+inductive Opnd10
+  | int (n : Int) | dec (q : Rat) | dbl (d : Dbl) | str (cs : List Char)
+
+def Opnd10.toDbl (R : Rounding) : Opnd10 → Dbl
+  | .int n => rnd R.r64 n
+  | .dec q => rnd R.r64 q
+  | .dbl d => d
+  | .str cs => number10 R cs
+
+/-- XPath 1.0 `A op B` (op ≠ idiv): both operands converted to numbers, IEEE 754 arithmetic, `mod` as in
+Java/ECMAScript (truncating remainder) -/
+def spec10Bin (R : Rounding) (op : BinOp) (a b : Opnd10) : Except Err XVal :=
+  specBin R op (.double (a.toDbl R)) (.double (b.toDbl R))
+
+def spec10Un (R : Rounding) (op : UnOp) (a : Opnd10) : XVal :=
+  specUn R op (.double (a.toDbl R))
+
+/-- the number an XDM value denotes in the XPath 1.0 data model (type tag dropped; an exact zero is +0) -/
+def XVal.num10 : XVal → Dbl
+  | .integer n => if n = 0 then .zero false else .fin n
+  | .decimal q => if q = 0 then .zero false else .fin q
+  | .float d => d
+  | .double d => d
 
 /-! ### a concrete round-to-nearest-even, for the driver only (validated by the correspondence
 check against the hardware; no theorem depends on it) -/
